@@ -87,7 +87,7 @@ impl RootHandler {
 //@sub /(?s)for \(psbt_in, tx_in\) in psbt\.inputs\.iter_mut\(\)\.zip\(tx\.input\.iter_mut\(\)\) \{.*?\n        \}\n/ => vx_fill_script_sigs(&mut streamed.psbt.inner);\n
 //@sub /&self\.node,\s*&tx,/ => &self.node, &streamed.psbt.inner.unsigned_tx,
 //@sub /unchecked_sign_onchain_tx\(&tx,/ => unchecked_sign_onchain_tx(&streamed.psbt.inner.unsigned_tx,
-//@sub /(?s)for \(i, stack\) in witvec\.into_iter\(\)\.enumerate\(\) \{.*?\n        \}\n/ => vx_install_witnesses(&mut streamed.psbt.inner, witvec);\n
+//@sub /(?s)for \(i, \w+\) in witvec\.into_iter\(\)\.enumerate\(\) \{.*?\n        \}\n/ => vx_install_witnesses(&mut streamed.psbt.inner, witvec);\n
 //@proof before /^\s*Ok\(\(\)\)\s*$/
         proof {
             assert(approval_of(self.approver, self.node, streamed.psbt.inner.unsigned_tx, streamed.segwit_flags@, prev_outs@, opaths@) == Ok::<bool, Status>(true));
